@@ -28,6 +28,8 @@ def _mutators(ctx, adt, field):
                 if s['k'] == 'assign' and s['rv']['k'] == 'ref' and s['rv']['m'] == 'mut' and not s['pl']['p']:
                     if u.reftemps.get(s['pl']['l']) == field:
                         mut_temps.add(s['pl']['l'])
+                if s['k'] == 'assign' and not s['pl']['p'] and u.reftemps.get(s['pl']['l']) == field and fn.local_ty(s['pl']['l']).strip().startswith('&mut'):
+                    mut_temps.add(s['pl']['l'])
         for (bb, m, t) in u.calls.get(field, []):
             a = t['args'][0]
             if a['pl']['l'] in mut_temps:
